@@ -8,6 +8,7 @@ CONSTANTS
   Placement = "any"
   Defects <- T_Defects
   IOModes = {"now", "later"}
+  Lines <- T_Lines
 CHECK_DEADLOCK FALSE
 CONSTRAINT Progress
 POSTCONDITION TraceAccepted
